@@ -68,6 +68,7 @@ func main() {
 	chainIDs()
 	hardforks()
 	genesisStore()
+	inventories()
 }
 
 // ---------------------------------------------------------------------------------------------
@@ -1225,8 +1226,8 @@ func chainIDs() {
 		if back == nil && noSlash {
 			run.Fail("chain id bytes cannot be read back", rep)
 		}
-		if back != nil && !back.Equals(c) {
-			rep["read_back"] = cidTokens(back)
+		if back != nil && (!back.Equals(c) || !reflect.DeepEqual(*back, *c)) {
+			rep["read_back"] = fmt.Sprintf("%+v", *back)
 			run.Fail("chain id read back differs from what was written", rep)
 		}
 		// decode: mutated / truncated / random inputs
@@ -1251,12 +1252,25 @@ func chainIDs() {
 		if rng.Chance(1, 6) {
 			src = exact(d)
 		}
+		srcBefore := hx(src)
+		// a caller's slice usually has spare capacity and is a field of a block header (NewBlockHeaderInfoFromPrevBlock hands in the
+		// parent's ChainID): both shapes, capacity = length and capacity > length
+		if rng.Bool() {
+			src = append(make([]byte, 0, len(src)+8), src...)
+		}
 		mk, panicked := vh.Guard(func() string { return hx(types.MakeChainId(src, v)) })
 		if panicked {
 			mk = "panic"
 		}
-		run.Op(fmt.Sprintf("mkcid %s %d", hx(src), v), mk, !panicked)
+		run.Op(fmt.Sprintf("mkcid %s %d", srcBefore, v), mk, !panicked)
+		if !panicked && hx(src) != srcBefore {
+			// the chain id handed in is the ChainID field of the parent block's header: rewriting it changes a header whose
+			// identifier is already fixed (the parent's id is no longer the digest of its header) and what is read back from it
+			run.Fail("MakeChainId modified the chain id bytes it was given (the parent header's ChainID): that block's identifier no longer is the digest of its header",
+				map[string]interface{}{"chain_id_bytes_before": srcBefore, "chain_id_bytes_after": hx(src), "version": v, "result": mk})
+		}
 		if !panicked {
+			src = exact(src)
 			nb := types.MakeChainId(exact(src), v)
 			rep := map[string]interface{}{"chain_id_bytes": hx(src), "version": v, "result": hx(nb)}
 			if types.DecodeChainIdVersion(nb) != v {
@@ -1642,6 +1656,208 @@ func genesisStore() {
 			run.Fail("genesis enterprise block producers read back differ", rep)
 		case total.Sign() != 0 && (back.TotalBalance() == nil || back.TotalBalance().Cmp(total) != 0):
 			run.Fail("genesis total balance read back differs", rep)
+		}
+	}
+}
+
+// ---------------------------------------------------------------------------------------------
+// 7. inventories by reflection: every exported field of Receipt, Event and ChainID - also one added later - is generated,
+// changed singly and looked for in the commitment (Merkle bytes, chain id bytes) and in what storage gives back. The only
+// fields allowed to be absent are the ones named here (the same lists the Lean theorems of Part 6 are stated over).
+
+var receiptDerived = map[string]bool{"BlockNo": true, "BlockHash": true, "TxIndex": true, "From": true, "To": true} // filled in when a receipt is served
+var receiptV2Only = map[string]bool{"GasUsed": true, "FeeDelegation": true}
+var eventDerived = map[string]bool{"BlockHash": true, "BlockNo": true, "TxIndex": true}
+var eventNotStored = map[string]bool{"TxHash": true} // restored from the receipt (SetMemoryInfo)
+
+// changeField gives the exported field f of the struct v another value (kinds of the pinned structs; an unknown kind stops the harness)
+func changeField(v reflect.Value, f string) {
+	fv := v.FieldByName(f)
+	switch fv.Kind() {
+	case reflect.Slice:
+		if fv.Type().Elem().Kind() == reflect.Uint8 {
+			b := fv.Bytes()
+			if len(b) == 0 {
+				fv.SetBytes([]byte{byte(1 + rng.Intn(255))})
+			} else {
+				c := append([]byte(nil), b...)
+				c[rng.Intn(len(c))] ^= byte(1 << uint(rng.Intn(8)))
+				fv.SetBytes(c)
+			}
+			return
+		}
+		if fv.Type() == reflect.TypeOf([]*types.Event{}) {
+			evs := fv.Interface().([]*types.Event)
+			r := v.Addr().Interface().(*types.Receipt)
+			evs = append(append([]*types.Event(nil), evs...), &types.Event{ContractAddress: r.ContractAddress, EventName: "x", JsonArgs: "[]", EventIdx: int32(len(evs)), TxHash: r.TxHash})
+			fv.Set(reflect.ValueOf(evs))
+			return
+		}
+		panic("c19 harness: slice field kind not handled: " + f)
+	case reflect.String:
+		if f == "Status" {
+			old := fv.String()
+			for fv.String() == old {
+				fv.SetString([]string{"SUCCESS", "CREATED", "RECREATED"}[rng.Intn(3)])
+			}
+			return
+		}
+		fv.SetString(fv.String() + string(rune('a'+rng.Intn(26))))
+	case reflect.Uint64, reflect.Uint32:
+		fv.SetUint(fv.Uint() ^ (1 << uint(rng.Intn(32))))
+	case reflect.Int64, reflect.Int32:
+		fv.SetInt(int64(int32(fv.Int()) ^ (1 << uint(rng.Intn(31)))))
+	case reflect.Bool:
+		fv.SetBool(!fv.Bool())
+	default:
+		panic("c19 harness: field kind not handled: " + f + " " + fv.Kind().String())
+	}
+}
+
+func sameField(a, b reflect.Value) bool {
+	if a.Kind() == reflect.Slice && a.Type().Elem().Kind() == reflect.Uint8 {
+		return bytes.Equal(a.Bytes(), b.Bytes())
+	}
+	return reflect.DeepEqual(a.Interface(), b.Interface())
+}
+
+// copyOf: a receipt with the same exported fields (events copied one level deep), by reflection so that a field added later is carried over
+func copyOf(r *types.Receipt) *types.Receipt {
+	m := &types.Receipt{}
+	mv, rv := reflect.ValueOf(m).Elem(), reflect.ValueOf(r).Elem()
+	for _, g := range exportedFields(rv.Type()) {
+		mv.FieldByName(g).Set(rv.FieldByName(g))
+	}
+	m.Events = nil
+	for _, e := range r.Events {
+		c := &types.Event{}
+		cv, ev := reflect.ValueOf(c).Elem(), reflect.ValueOf(e).Elem()
+		for _, g := range exportedFields(ev.Type()) {
+			cv.FieldByName(g).Set(ev.FieldByName(g))
+		}
+		m.Events = append(m.Events, c)
+	}
+	return m
+}
+
+func decodeStored(sb []byte, v2 bool) (*types.Receipt, string) {
+	var dec types.Receipt
+	out, panicked := vh.Guard(func() string {
+		if _, e := types.VerifC19UnmarshalStore(&dec, exact(sb), v2); e != nil {
+			return "err"
+		}
+		return ""
+	})
+	if panicked {
+		return nil, "panic"
+	}
+	if out != "" {
+		return nil, out
+	}
+	return &dec, ""
+}
+
+func inventories() {
+	rFields := exportedFields(reflect.TypeOf(types.Receipt{}))
+	eFields := exportedFields(reflect.TypeOf(types.Event{}))
+	cFields := exportedFields(reflect.TypeOf(types.ChainID{}))
+	for i := 0; i < run.Pick(60, 1200); i++ {
+		r := wfReceipt()
+		if r.Status == "ERROR" {
+			r.Status = "SUCCESS" // the return value of a failed execution is not committed (stated separately)
+		}
+		if len(r.Events) == 0 {
+			r.Events = []*types.Event{{ContractAddress: r.ContractAddress, EventName: "e", JsonArgs: "[1]", EventIdx: 0, TxHash: r.TxHash}}
+		}
+		for _, v2 := range []bool{false, true} {
+			base, err := merkleBytes(r, v2)
+			if err != nil {
+				panic(err)
+			}
+			// ---- receipt fields
+			for _, f := range rFields {
+				m := copyOf(r)
+				changeField(reflect.ValueOf(m).Elem(), f)
+				mb, merr := merkleBytes(m, v2)
+				committed := merr != nil || !bytes.Equal(mb, base)
+				run.Eval(fmt.Sprintf("inventory receipt %s %v %d", f, v2, i), true)
+				run.Count("inventory-receipt-field")
+				must := !receiptDerived[f] && (v2 || !receiptV2Only[f])
+				if must && !committed {
+					run.Fail("receipt field "+f+" is not committed by the receipt's Merkle bytes of format "+vtag(v2)+
+						" (and is not one of the fields filled in when a receipt is served: BlockNo, BlockHash, TxIndex, From, To)",
+						map[string]interface{}{"format": vtag(v2), "field": f, "receipt": receiptTokens(r)})
+				}
+				// storage: what is written reads back, field by field
+				if sb, serr := types.VerifC19MarshalStore(m, v2); must && merr == nil && serr == nil {
+					dec, out := decodeStored(sb, v2)
+					bad := dec == nil
+					if !bad && f == "Events" {
+						bad = len(dec.Events) != len(m.Events)
+					} else if !bad {
+						bad = !sameField(reflect.ValueOf(dec).Elem().FieldByName(f), reflect.ValueOf(m).Elem().FieldByName(f))
+					}
+					if bad {
+						run.Fail("receipt field "+f+" does not read back from the storage bytes of format "+vtag(v2)+" as written",
+							map[string]interface{}{"format": vtag(v2), "field": f, "receipt": receiptTokens(m), "decode": out})
+					}
+				}
+			}
+			// ---- event fields (first event)
+			for _, f := range eFields {
+				m := copyOf(r)
+				ev := reflect.ValueOf(m.Events[0]).Elem()
+				changeField(ev, f)
+				mb, merr := merkleBytes(m, v2)
+				committed := merr != nil || !bytes.Equal(mb, base)
+				run.Eval(fmt.Sprintf("inventory event %s %v %d", f, v2, i), true)
+				run.Count("inventory-event-field")
+				if !eventDerived[f] && !committed {
+					run.Fail("event field "+f+" is not committed by the receipt's Merkle bytes of format "+vtag(v2)+
+						" (and is not one of the fields filled in when an event is served: BlockHash, BlockNo, TxIndex)",
+						map[string]interface{}{"format": vtag(v2), "field": f, "receipt": receiptTokens(r)})
+				}
+				if sb, serr := types.VerifC19MarshalStore(m, v2); !eventDerived[f] && !eventNotStored[f] && merr == nil && serr == nil {
+					dec, out := decodeStored(sb, v2)
+					if dec == nil || len(dec.Events) == 0 || !sameField(reflect.ValueOf(dec.Events[0]).Elem().FieldByName(f), ev.FieldByName(f)) {
+						run.Fail("event field "+f+" does not read back from the storage bytes of format "+vtag(v2)+" as written",
+							map[string]interface{}{"format": vtag(v2), "field": f, "receipt": receiptTokens(m), "decode": out})
+					}
+				}
+			}
+		}
+		// ---- chain id fields
+		c, noSlash := randChainID()
+		if !noSlash {
+			continue
+		}
+		cb, err := c.Bytes()
+		if err != nil {
+			continue
+		}
+		for _, f := range cFields {
+			m := *c
+			changeField(reflect.ValueOf(&m).Elem(), f)
+			if strings.Contains(m.Magic, "/") || strings.Contains(m.Consensus, "/") {
+				continue
+			}
+			mb, err := m.Bytes()
+			run.Eval(fmt.Sprintf("inventory chainid %s %d", f, i), true)
+			run.Count("inventory-chainid-field")
+			rep := map[string]interface{}{"field": f, "chain_id": fmt.Sprintf("%+v", *c), "changed": fmt.Sprintf("%+v", m)}
+			if err == nil && bytes.Equal(mb, cb) {
+				run.Fail("chain id field "+f+" is not part of the chain id bytes (ChainID.Bytes): two different chain ids have the same encoding", rep)
+			}
+			if err == nil {
+				back := types.NewChainID()
+				if e := back.Read(exact(mb)); e != nil || !reflect.DeepEqual(*back, m) {
+					rep["read_back"] = fmt.Sprintf("%+v", *back)
+					run.Fail("chain id field "+f+" does not read back from the chain id bytes as written", rep)
+				}
+				if back.Equals(c) {
+					run.Fail("ChainID.Equals ignores field "+f, rep)
+				}
+			}
 		}
 	}
 }
